@@ -22,7 +22,7 @@ def dispatch (c : Json) : Json × Json :=
   | "math" => runMath c
   | "partials" => runPartials c (jget c "impl")
   | "render" => runRender c
-  | "pure" => runRender c
+  | "pure" => if hasGoOrdered (jget c "data") then (clsOut "model-domain" "ordered Go map type in the data", .null) else runRender c
   | "json" => runJson c
   | "gopath" => runGoPath c
   | "gate" => runGateCase c
